@@ -1399,8 +1399,25 @@ func (g *Gen) anchored(st *State, line, kind string) {
 		for _, c := range cl {
 			if c.Kind == "assume-at" && kind == "assert-at" {
 				ctx := &specCtx{g: g, st: st, old: g.entry}
-				g.assume(st, g.evalAssume(ctx, c.E))
 				g.assertUse[c]++
+				a, ok := "", true
+				func() {
+					defer func() {
+						if r := recover(); r != nil {
+							if u, isU := r.(unsupportedErr); isU && strings.Contains(u.msg, "unknown identifier") {
+								ok = false
+								g.anchorNotes = append(g.anchorNotes, "assume at `"+anchor+"` names a variable the code no longer has: "+u.msg)
+								return
+							}
+							panic(r)
+						}
+					}()
+					a = g.evalAssume(ctx, c.E)
+				}()
+				if !ok {
+					continue
+				}
+				g.assume(st, a)
 				if !g.discovery {
 					g.trustedUsed["explicit assumption at `"+anchor+"`: "+c.Src] = true
 				}
